@@ -4,6 +4,9 @@ import SluProofs.Lemmas.Gemv
 import SluProofs.Lemmas.CxRat
 import SluProofs.Lemmas.Trsv
 import SluProofs.Lemmas.TrsvLayout
+import SluProofs.Lemmas.Cblas
+import Slu.Model.Lacon
+import SluProofs.Lemmas.Cblas2
 /-
 C14 — Sparse triangular solve / multiply kernels compute the documented operation.
 
@@ -391,3 +394,756 @@ example : ∃ A : CSC Rat, A.m ≠ 0 ∧ A.n ≠ 0 ∧ ∀ j, j < A.n → ∀ e 
     rw [he]; decide⟩
 
 end Slu.Kernels
+
+/-! ## The bundled reference BLAS (`/repo/CBLAS`, f2c) — level 1
+
+Theorems about the bit mirrors of Slu/Model/Cblas.lean (the objects family `cblas` runs at
+`Float/Float32/Cx _` and compares bit for bit with the C routines), in exact arithmetic at `Rat` /
+`Cx Rat`, for ALL `n` (negative included) and ALL increments the routine accepts.  The hand-unrolled
+clean-up/blocks structure (`n % 6`, `% 7`, `% 5`, `% 4`, `% 3`) is invisible (`unrolled_eq_loop`, which
+uses no algebraic law and therefore also holds at `Float`); the promoted-to-double sub-expressions of
+the single-precision files are the identity at `Rat`.  `StridedUpd d N inc y r val`: `r` has the size
+of `y`, its strided entries are `val i`, every other position is the one of `y`.
+`nrm2`: the theorems are about the `(scale, ssq)` pair the routine holds before its last statement
+`norm = scale * sqrt(ssq)`: `scale >= 0`, `ssq >= 1`, `scale^2 * ssq = Σ x_i^2` (and `scale >= |x_i|`);
+hence `norm = sqrt(Σ x_i^2)` for an exact square root — `sqrt` itself is trusted (libm, correctly
+rounded; `fparith` compares it with Lean's). -/
+namespace Slu.Cblas
+open Finset
+
+/-- **asum (real).** `dasum_`/`sasum_` in exact arithmetic: the sum of the absolute values of the
+strided elements, 0 when `n <= 0` or `incx <= 0`; the blocks of six are invisible. -/
+theorem asum_spec (n : Int) (x : Array Rat) (incx : Int) :
+    asumR n x incx = if n ≤ 0 ∨ incx ≤ 0 then 0 else ∑ i ∈ range n.toNat, |x.getD (spos n.toNat incx i) 0| := by
+  unfold asumR
+  by_cases h : n ≤ 0 ∨ incx ≤ 0
+  · simp [h]
+  · simp only [h, if_false]
+    by_cases h1 : incx = 1
+    · subst h1
+      simp only [ne_eq, not_true_eq_false, if_false]
+      rw [unrolled_eq_loop 6]
+      · simp only [up_rat, down_rat, f2cabs_rat, spos_one]
+        rw [loop_add_eq_sum]; simp
+      · intro t b; rfl
+    · simp only [ne_eq, h1, not_false_eq_true, if_true, up_rat, down_rat, f2cabs_rat]
+      rw [loop_add_eq_sum]; simp
+
+/-- **asum (complex).** `dzasum_` and `scasum_` (different association in floating point) both
+compute `Σ |re x_i| + |im x_i|`. -/
+theorem asumZ_spec (n : Int) (x : Array (Cx Rat)) (incx : Int) :
+    asumZ n x incx = if n ≤ 0 ∨ incx ≤ 0 then 0 else
+      ∑ i ∈ range n.toNat, (|(x.getD (spos n.toNat incx i) 0).re| + |(x.getD (spos n.toNat incx i) 0).im|) := by
+  unfold asumZ
+  by_cases h : n ≤ 0 ∨ incx ≤ 0
+  · simp [h]
+  · simp only [h, if_false, dcabs1, f2cabs_rat]
+    rw [loop_add_eq_sum]; simp
+
+theorem asumC_spec (n : Int) (x : Array (Cx Rat)) (incx : Int) :
+    asumC n x incx = if n ≤ 0 ∨ incx ≤ 0 then 0 else
+      ∑ i ∈ range n.toNat, (|(x.getD (spos n.toNat incx i) 0).re| + |(x.getD (spos n.toNat incx i) 0).im|) := by
+  unfold asumC
+  by_cases h : n ≤ 0 ∨ incx ≤ 0
+  · simp [h]
+  · simp only [h, if_false, f2cabs_rat, up_rat, down_rat, add_assoc]
+    rw [loop_add_eq_sum]; simp
+
+/-- **iamax (real).** -/
+theorem iamax_spec (n : Int) (x : Array Rat) (incx : Int) :
+    (n < 1 ∨ incx ≤ 0 → iamaxR n x incx = 0) ∧
+    (1 ≤ n → 0 < incx → ∃ r : Nat, iamaxR n x incx = ((r + 1 : Nat) : Int) ∧ r < n.toNat ∧
+      (∀ i, i < n.toNat → |x.getD (spos n.toNat incx i) 0| ≤ |x.getD (spos n.toNat incx r) 0|) ∧
+      (∀ i, i < r → |x.getD (spos n.toNat incx i) 0| < |x.getD (spos n.toNat incx r) 0|)) := by
+  constructor
+  · intro h; simp [iamaxR, h]
+  · intro hn hinc
+    have hc : ¬ (n < 1 ∨ incx ≤ 0) := by omega
+    unfold iamaxR
+    simp only [hc, if_false]
+    by_cases h1 : n = 1
+    · subst h1
+      refine ⟨0, by simp, by simp, ?_, ?_⟩
+      · intro i hi
+        have : i = 0 := by simpa using hi
+        subst this; exact le_refl _
+      · intro i hi; omega
+    · simp only [h1, if_false]
+      obtain ⟨r, e1, e2, _, e4, e5⟩ := amaxScan_spec (fun i => |x.getD (spos n.toNat incx i) 0|) (n.toNat - 1)
+      have hs : loop (n.toNat - 1) (fun (s : Int × Rat) k =>
+            if f2cabs (x.getD (spos n.toNat incx (k + 1)) 0) ≤ s.2 then s
+            else (((k + 2 : Nat) : Int), f2cabs (x.getD (spos n.toNat incx (k + 1)) 0))) ((1 : Int), f2cabs (x.getD 0 0))
+          = amaxScan (fun i => |x.getD (spos n.toNat incx i) 0|) (n.toNat - 1) := by
+        unfold amaxScan
+        simp only [f2cabs_rat, spos_zero n.toNat incx (le_of_lt hinc)]
+      rw [hs]
+      refine ⟨r, e1, by omega, ?_, e5⟩
+      intro i hi
+      exact e4 i (by omega)
+
+/-- **iamax (complex).** -/
+theorem iamaxC_spec (n : Int) (x : Array (Cx Rat)) (incx : Int) :
+    (n < 1 ∨ incx ≤ 0 → iamaxC n x incx = 0) ∧
+    (1 ≤ n → 0 < incx → ∃ r : Nat, iamaxC n x incx = ((r + 1 : Nat) : Int) ∧ r < n.toNat ∧
+      (∀ i, i < n.toNat → |(x.getD (spos n.toNat incx i) 0).re| + |(x.getD (spos n.toNat incx i) 0).im| ≤
+          |(x.getD (spos n.toNat incx r) 0).re| + |(x.getD (spos n.toNat incx r) 0).im|) ∧
+      (∀ i, i < r → |(x.getD (spos n.toNat incx i) 0).re| + |(x.getD (spos n.toNat incx i) 0).im| <
+          |(x.getD (spos n.toNat incx r) 0).re| + |(x.getD (spos n.toNat incx r) 0).im|)) := by
+  constructor
+  · intro h; simp [iamaxC, h]
+  · intro hn hinc
+    have hc : ¬ (n < 1 ∨ incx ≤ 0) := by omega
+    unfold iamaxC
+    simp only [hc, if_false]
+    by_cases h1 : n = 1
+    · subst h1
+      refine ⟨0, by simp, by simp, ?_, ?_⟩
+      · intro i hi
+        have : i = 0 := by simpa using hi
+        subst this; exact le_refl _
+      · intro i hi; omega
+    · simp only [h1, if_false]
+      obtain ⟨r, e1, e2, _, e4, e5⟩ := amaxScan_spec
+        (fun i => |(x.getD (spos n.toNat incx i) 0).re| + |(x.getD (spos n.toNat incx i) 0).im|) (n.toNat - 1)
+      have hs : loop (n.toNat - 1) (fun (s : Int × Rat) k =>
+            if (cabs1W (x.getD (spos n.toNat incx (k + 1)) 0) : Rat) ≤ Widen.up s.2 then s
+            else (((k + 2 : Nat) : Int), Widen.down (cabs1W (x.getD (spos n.toNat incx (k + 1)) 0) : Rat)))
+            ((1 : Int), Widen.down (cabs1W (x.getD 0 0) : Rat))
+          = amaxScan (fun i => |(x.getD (spos n.toNat incx i) 0).re| + |(x.getD (spos n.toNat incx i) 0).im|) (n.toNat - 1) := by
+        unfold amaxScan
+        simp only [cabs1W, up_rat, down_rat, f2cabs_rat, spos_zero n.toNat incx (le_of_lt hinc)]
+      rw [hs]
+      refine ⟨r, e1, by omega, ?_, e5⟩
+      intro i hi
+      exact e4 i (by omega)
+
+/-- **dot (real).** -/
+theorem dot_spec (n : Int) (x : Array Rat) (incx : Int) (y : Array Rat) (incy : Int) :
+    dotR n x incx y incy = if n ≤ 0 then 0 else
+      ∑ i ∈ range n.toNat, x.getD (spos n.toNat incx i) 0 * y.getD (spos n.toNat incy i) 0 := by
+  unfold dotR
+  by_cases h : n ≤ 0
+  · simp [h]
+  · simp only [h, if_false]
+    by_cases h1 : incx = 1 ∧ incy = 1
+    · obtain ⟨hx, hy⟩ := h1
+      subst hx; subst hy
+      simp only [and_self, if_true]
+      rw [unrolled_eq_loop 5]
+      · simp only [spos_one]
+        rw [loop_add_eq_sum]; simp
+      · intro t b; rfl
+    · simp only [h1, if_false]
+      rw [loop_add_eq_sum]; simp
+
+/-- **dotc.** `zdotc_`/`cdotc_`: `Σ conj(x_i) * y_i` in the field of Gaussian rationals. -/
+theorem dotc_spec (n : Int) (x : Array (Cx Rat)) (incx : Int) (y : Array (Cx Rat)) (incy : Int) :
+    dotcC n x incx y incy = if n ≤ 0 then 0 else
+      ∑ i ∈ range n.toNat, Conj.conj (x.getD (spos n.toNat incx i) 0) * y.getD (spos n.toNat incy i) 0 := by
+  unfold dotcC
+  by_cases h : n ≤ 0
+  · simp only [h, if_true]; rfl
+  · simp only [h, if_false]
+    have hstep : ∀ (t : Cx Rat) (i : Nat),
+        (⟨t.re + (cmulF (⟨(x.getD (spos n.toNat incx i) 0).re, -(x.getD (spos n.toNat incx i) 0).im⟩ : Cx Rat) (y.getD (spos n.toNat incy i) 0)).re,
+          t.im + (cmulF (⟨(x.getD (spos n.toNat incx i) 0).re, -(x.getD (spos n.toNat incx i) 0).im⟩ : Cx Rat) (y.getD (spos n.toNat incy i) 0)).im⟩ : Cx Rat)
+        = t + Conj.conj (x.getD (spos n.toNat incx i) 0) * y.getD (spos n.toNat incy i) 0 := by
+      intro t i
+      rw [cmulF_eq_mul]; rfl
+    simp only [hstep]
+    have h0 : (⟨0, 0⟩ : Cx Rat) = 0 := rfl
+    rw [h0, loop_add_eq_sum]; simp
+
+/-- **axpy (real).** for every `n > 0`, every `a` (the `a == 0` quick return included), any `incx`, any
+nonzero `incy`: `y_i := y_i + a*x_i` on the strided positions, everything else unchanged. -/
+theorem axpy_spec (n : Int) (a : Rat) (x : Array Rat) (incx : Int) (y : Array Rat) (incy : Int)
+    (hn : 0 < n) (hincy : incy ≠ 0) (hb : ∀ i, i < n.toNat → spos n.toNat incy i < y.size) :
+    StridedUpd 0 n.toNat incy y (axpyR n a x incx y incy)
+      (fun i => y.getD (spos n.toNat incy i) 0 + a * x.getD (spos n.toNat incx i) 0) := by
+  have key := updG_strided (0 : Rat) n.toNat incy hincy (fun i v => v + a * x.getD (spos n.toNat incx i) 0) y hb
+  unfold axpyR
+  have hn' : ¬ n ≤ 0 := by omega
+  simp only [hn', if_false]
+  by_cases ha : a = 0
+  · subst ha
+    have : IsZero.isZero (0 : Rat) = true := by rw [isZero_rat]; simp
+    simp only [this, if_true]
+    refine ⟨rfl, ?_, fun _ _ => rfl⟩
+    intro i hi; simp
+  · have : IsZero.isZero a = false := by rw [isZero_rat]; simp [ha]
+    simp only [this, Bool.false_eq_true, if_false]
+    by_cases h1 : incx = 1 ∧ incy = 1
+    · obtain ⟨hx, hy⟩ := h1
+      subst hx; subst hy
+      simp only [and_self, if_true]
+      rw [unrolled_eq_loop 4]
+      · simpa only [updG, spos_one] using key
+      · intro t b; rw [steps4]
+    · simp only [h1, if_false]
+      exact key
+
+theorem axpy_quick (n : Int) (a : Rat) (x : Array Rat) (incx : Int) (y : Array Rat) (incy : Int) (hn : n ≤ 0) :
+    axpyR n a x incx y incy = y := by simp [axpyR, hn]
+
+theorem axpyC_spec (n : Int) (a : Cx Rat) (x : Array (Cx Rat)) (incx : Int) (y : Array (Cx Rat)) (incy : Int)
+    (hn : 0 < n) (hincy : incy ≠ 0) (hb : ∀ i, i < n.toNat → spos n.toNat incy i < y.size) :
+    StridedUpd 0 n.toNat incy y (axpyC n a x incx y incy)
+      (fun i => y.getD (spos n.toNat incy i) 0 + a * x.getD (spos n.toNat incx i) 0) := by
+  have key := updG_strided (0 : Cx Rat) n.toNat incy hincy (fun i v => v + a * x.getD (spos n.toNat incx i) 0) y hb
+  unfold axpyC
+  have hn' : ¬ n ≤ 0 := by omega
+  simp only [hn', if_false, cabs1W_zero_iff]
+  by_cases ha : a = 0
+  · subst ha
+    simp only [decide_true, if_true]
+    refine ⟨rfl, ?_, fun _ _ => rfl⟩
+    intro i hi; simp
+  · simp only [ha, decide_false, Bool.false_eq_true, if_false, cmulF_eq_mul]
+    exact key
+
+/-- **scal (real).** -/
+theorem scal_spec (n : Int) (a : Rat) (x : Array Rat) (incx : Int)
+    (hn : 0 < n) (hinc : 0 < incx) (hb : ∀ i, i < n.toNat → spos n.toNat incx i < x.size) :
+    StridedUpd 0 n.toNat incx x (scalR n a x incx) (fun i => a * x.getD (spos n.toNat incx i) 0) := by
+  have key := updG_strided (0 : Rat) n.toNat incx (by omega) (fun _ v => a * v) x hb
+  unfold scalR
+  have hn' : ¬ (n ≤ 0 ∨ incx ≤ 0) := by omega
+  simp only [hn', if_false]
+  by_cases h1 : incx = 1
+  · subst h1
+    simp only [ne_eq, not_true_eq_false, if_false]
+    rw [unrolled_eq_loop 5]
+    · simpa only [updG, spos_one] using key
+    · intro t b; rw [steps5]
+  · simp only [ne_eq, h1, not_false_eq_true, if_true]
+    exact key
+
+theorem scal_quick (n : Int) (a : Rat) (x : Array Rat) (incx : Int) (h : n ≤ 0 ∨ incx ≤ 0) :
+    scalR n a x incx = x := by simp [scalR, h]
+
+theorem scalC_spec (n : Int) (a : Cx Rat) (x : Array (Cx Rat)) (incx : Int)
+    (hn : 0 < n) (hinc : 0 < incx) (hb : ∀ i, i < n.toNat → spos n.toNat incx i < x.size) :
+    StridedUpd 0 n.toNat incx x (scalC n a x incx) (fun i => a * x.getD (spos n.toNat incx i) 0) := by
+  have key := updG_strided (0 : Cx Rat) n.toNat incx (by omega) (fun _ v => a * v) x hb
+  unfold scalC
+  have hn' : ¬ (n ≤ 0 ∨ incx ≤ 0) := by omega
+  simp only [hn', if_false, cmulF_eq_mul]
+  exact key
+
+/-- **copy (real).** -/
+theorem copy_spec (n : Int) (x : Array Rat) (incx : Int) (y : Array Rat) (incy : Int)
+    (hn : 0 < n) (hincy : incy ≠ 0) (hb : ∀ i, i < n.toNat → spos n.toNat incy i < y.size) :
+    StridedUpd 0 n.toNat incy y (copyR n x incx y incy) (fun i => x.getD (spos n.toNat incx i) 0) := by
+  have key := updG_strided (0 : Rat) n.toNat incy hincy (fun i _ => x.getD (spos n.toNat incx i) 0) y hb
+  unfold copyR
+  have hn' : ¬ n ≤ 0 := by omega
+  simp only [hn', if_false]
+  by_cases h1 : incx = 1 ∧ incy = 1
+  · obtain ⟨hx, hy⟩ := h1
+    subst hx; subst hy
+    simp only [and_self, if_true]
+    rw [unrolled_eq_loop 7]
+    · simpa only [updG, spos_one] using key
+    · intro t b; rw [steps7]
+  · simp only [h1, if_false, copyG_eq_updG]
+    exact key
+
+/-- **copy / scal / axpy (complex).** -/
+theorem copyC_spec (n : Int) (x : Array (Cx Rat)) (incx : Int) (y : Array (Cx Rat)) (incy : Int)
+    (hn : 0 < n) (hincy : incy ≠ 0) (hb : ∀ i, i < n.toNat → spos n.toNat incy i < y.size) :
+    StridedUpd 0 n.toNat incy y (copyC n x incx y incy) (fun i => x.getD (spos n.toNat incx i) 0) := by
+  have key := updG_strided (0 : Cx Rat) n.toNat incy hincy (fun i _ => x.getD (spos n.toNat incx i) 0) y hb
+  unfold copyC
+  have hn' : ¬ n ≤ 0 := by omega
+  simp only [hn', if_false, copyG_eq_updG]
+  exact key
+
+/-- **swap (real).** nonzero increments, vectors in bounds: afterwards the strided elements of `x` are
+the old strided elements of `y` and vice versa; every other position of both arrays is unchanged. -/
+theorem swap_spec (n : Int) (x : Array Rat) (incx : Int) (y : Array Rat) (incy : Int)
+    (hn : 0 < n) (hx : incx ≠ 0) (hy : incy ≠ 0) (hbx : ∀ i, i < n.toNat → spos n.toNat incx i < x.size)
+    (hby : ∀ i, i < n.toNat → spos n.toNat incy i < y.size) :
+    StridedUpd 0 n.toNat incx x (swapR n x incx y incy).1 (fun i => y.getD (spos n.toNat incy i) 0) ∧
+    StridedUpd 0 n.toNat incy y (swapR n x incx y incy).2 (fun i => x.getD (spos n.toNat incx i) 0) := by
+  have kx := updG_strided (0 : Rat) n.toNat incx hx (fun i _ => y.getD (spos n.toNat incy i) 0) x hbx
+  have ky := updG_strided (0 : Rat) n.toNat incy hy (fun i _ => x.getD (spos n.toNat incx i) 0) y hby
+  have e := swapG_eq n.toNat x incx y incy hx hy hbx hby n.toNat (le_refl _)
+  unfold swapR
+  have hn' : ¬ n ≤ 0 := by omega
+  simp only [hn', if_false]
+  by_cases h1 : incx = 1 ∧ incy = 1
+  · obtain ⟨h1x, h1y⟩ := h1
+    subst h1x; subst h1y
+    simp only [and_self, if_true]
+    rw [unrolled_eq_loop 3]
+    · simp only [spos_one] at e kx ky
+      have : loop n.toNat swap1 (x, y) = _ := e
+      rw [this]
+      simp only [spos_one]
+      exact ⟨kx, ky⟩
+    · intro t b; rw [steps3]
+  · simp only [h1, if_false]
+    unfold swapG
+    rw [e]
+    exact ⟨kx, ky⟩
+
+theorem swapC_spec (n : Int) (x : Array (Cx Rat)) (incx : Int) (y : Array (Cx Rat)) (incy : Int)
+    (hn : 0 < n) (hx : incx ≠ 0) (hy : incy ≠ 0) (hbx : ∀ i, i < n.toNat → spos n.toNat incx i < x.size)
+    (hby : ∀ i, i < n.toNat → spos n.toNat incy i < y.size) :
+    StridedUpd 0 n.toNat incx x (swapC n x incx y incy).1 (fun i => y.getD (spos n.toNat incy i) 0) ∧
+    StridedUpd 0 n.toNat incy y (swapC n x incx y incy).2 (fun i => x.getD (spos n.toNat incx i) 0) := by
+  have kx := updG_strided (0 : Cx Rat) n.toNat incx hx (fun i _ => y.getD (spos n.toNat incy i) 0) x hbx
+  have ky := updG_strided (0 : Cx Rat) n.toNat incy hy (fun i _ => x.getD (spos n.toNat incx i) 0) y hby
+  have e := swapG_eq n.toNat x incx y incy hx hy hbx hby n.toNat (le_refl _)
+  unfold swapC
+  have hn' : ¬ n ≤ 0 := by omega
+  simp only [hn', if_false]
+  unfold swapG
+  rw [e]
+  exact ⟨kx, ky⟩
+
+/-- **nrm2 (real).** -/
+theorem nrm2_spec (N : Nat) (x : Array Rat) (incx : Int) :
+    0 ≤ (nrm2AccR N x incx).1 ∧ 1 ≤ (nrm2AccR N x incx).2 ∧
+    (nrm2AccR N x incx).1 ^ 2 * (nrm2AccR N x incx).2 = ∑ i ∈ range N, (x.getD (spos N incx i) 0) ^ 2 ∧
+    (∀ i, i < N → |x.getD (spos N incx i) 0| ≤ (nrm2AccR N x incx).1) :=
+  ssq_loop_spec (fun i => x.getD (spos N incx i) 0) N
+
+/-- **nrm2 (complex).** -/
+theorem nrm2C_spec (N : Nat) (x : Array (Cx Rat)) (incx : Int) :
+    0 ≤ (nrm2AccC N x incx).1 ∧ 1 ≤ (nrm2AccC N x incx).2 ∧
+    (nrm2AccC N x incx).1 ^ 2 * (nrm2AccC N x incx).2 =
+      ∑ i ∈ range N, ((x.getD (spos N incx i) 0).re ^ 2 + (x.getD (spos N incx i) 0).im ^ 2) :=
+  ssq2_loop_spec (fun i => (x.getD (spos N incx i) 0).re) (fun i => (x.getD (spos N incx i) 0).im) N
+
+/-! ### concrete instances: `n` not a multiple of the unrolling factor, negative increments -/
+
+/-- eight elements = clean-up loop of 2 + one block of 6 -/
+example : asumR (8 : Int) (#[1, -2, 3, -4, 5, -6, 7, -8] : Array Rat) 1 = 36 := by decide +kernel
+/-- `incx <= 0` and `n <= 0` quick returns -/
+example : asumR (3 : Int) (#[1, -2, 3] : Array Rat) (-1) = 0 := by decide +kernel
+/-- seven elements (clean-up 2 + block of 5), reversed `y` -/
+example : dotR (7 : Int) (#[1, 2, 3, 4, 5, 6, 7] : Array Rat) 1 (#[7, 6, 5, 4, 3, 2, 1] : Array Rat) (-1) = 140 := by
+  decide +kernel
+example : dotR (7 : Int) (#[1, 2, 3, 4, 5, 6, 7] : Array Rat) 1 (#[7, 6, 5, 4, 3, 2, 1] : Array Rat) 1 = 84 := by
+  decide +kernel
+/-- the FIRST of two elements of maximal magnitude wins -/
+example : iamaxR (5 : Int) (#[1, -3, 2, 3, 0] : Array Rat) 1 = 2 := by decide +kernel
+example : iamaxR (3 : Int) (#[1, 9, -3, 9, 3, 9] : Array Rat) 2 = 2 := by decide +kernel
+/-- `y := y + 2 x` with `incy = -2`: the gaps of `y` stay, element 0 of `x` meets the LAST strided slot -/
+example : axpyR (3 : Int) 2 (#[1, 10, 100] : Array Rat) 1 (#[0, 7, 0, 7, 0] : Array Rat) (-2) = #[200, 7, 20, 7, 2] := by
+  decide +kernel
+/-- the hypotheses of `axpy_spec` / `swap_spec` / `scal_spec` / `copy_spec` are satisfiable -/
+example := axpy_spec 3 2 (#[1, 10, 100] : Array Rat) 1 (#[0, 7, 0, 7, 0] : Array Rat) (-2)
+  (by decide) (by decide) (by decide)
+example : swapR (5 : Int) (#[1, 2, 3, 4, 5] : Array Rat) 1 (#[6, 7, 8, 9, 10] : Array Rat) (-1) =
+    (#[10, 9, 8, 7, 6], #[5, 4, 3, 2, 1]) := by decide +kernel
+example := swap_spec 5 (#[1, 2, 3, 4, 5] : Array Rat) 1 (#[6, 7, 8, 9, 10] : Array Rat) (-1)
+  (by decide) (by decide) (by decide) (by decide) (by decide)
+example := scal_spec 7 3 (#[1, 2, 3, 4, 5, 6, 7] : Array Rat) 1 (by decide) (by decide) (by decide)
+example := copy_spec 9 (#[1, 2, 3, 4, 5, 6, 7, 8, 9] : Array Rat) (-1) (#[0, 0, 0, 0, 0, 0, 0, 0, 0] : Array Rat) 1
+  (by decide) (by decide) (by decide)
+/-- `scale = 4`, `ssq = 25/16`: `4^2 * 25/16 = 3^2 + 4^2` -/
+example : nrm2AccR 2 (#[3, -4] : Array Rat) (-1) = (4, 25 / 16) := by decide +kernel
+/-- complex: `conj(1+2i)(3-i) + conj(-i)(2) = (1 - 7i) + 2i`, second vector reversed -/
+example : dotcC (2 : Int) (#[⟨1, 2⟩, ⟨0, -1⟩] : Array (Cx Rat)) 1 (#[⟨2, 0⟩, ⟨3, -1⟩] : Array (Cx Rat)) (-1) = ⟨1, -5⟩ := by
+  decide +kernel
+example : asumZ (2 : Int) (#[⟨1, -2⟩, ⟨-3, 4⟩] : Array (Cx Rat)) 1 = 10 ∧
+    asumC (2 : Int) (#[⟨1, -2⟩, ⟨-3, 4⟩] : Array (Cx Rat)) 1 = 10 := by decide +kernel
+
+end Slu.Cblas
+
+/-! ## The bundled reference BLAS — level 2: `[sdcz]gemv_`
+
+`Slu.Cblas.gemv` (Slu/Model/Cblas2.lean) is `spGemv` on the dense column list of the column-major
+array — the same loop nest as CBLAS/dgemv.c, compared bit for bit with `[sdcz]gemv_` by family
+`cblas` — so `sp_gemv_spec` applies: `opA tr a lda i j` is `a[i + j*lda]` (N), `a[j + i*lda]` (T) or
+its conjugate (C). -/
+namespace Slu.Cblas
+open Finset Slu.Kernels
+section gemv
+variable {K : Type} [Field K] [Conj K] [Inhabited K]
+variable [BEq K] [LawfulBEq K]
+
+/-- **gemv.** `[sdcz]gemv_` on an `m x n` column-major array with any `lda`, any nonzero `incy`, any
+`incx`, every `alpha`, `beta` (quick returns and the `x_j = 0` column skip included): the strided
+entries of the result are `alpha * Σ_j op(A)(i,j) x_j + beta * y_i`, every other position of `y` is
+unchanged, the size is unchanged. -/
+theorem gemv_spec (tr : Tr) (m n lda : Nat) (alpha beta : K) (a x y : Array K) (incx incy : Int)
+    (hm : m ≠ 0) (hn : n ≠ 0) (hincy : incy ≠ 0)
+    (hy : ∀ i, i < (if tr == Tr.N then m else n) → vpos (if tr == Tr.N then m else n) incy i < y.size) :
+    (gemv tr m n alpha a lda x incx beta y incy).size = y.size ∧
+    (∀ i, i < (if tr == Tr.N then m else n) →
+      (gemv tr m n alpha a lda x incx beta y incy)[vpos (if tr == Tr.N then m else n) incy i]! =
+        alpha * (∑ j ∈ range (if tr == Tr.N then n else m), opA tr a lda i j * x[vpos (if tr == Tr.N then n else m) incx j]!) +
+          beta * y[vpos (if tr == Tr.N then m else n) incy i]!) ∧
+    (∀ p, (∀ i, i < (if tr == Tr.N then m else n) → vpos (if tr == Tr.N then m else n) incy i ≠ p) →
+      (gemv tr m n alpha a lda x incx beta y incy)[p]! = y[p]!) := by
+  have hrows : ∀ j, j < (denseCSC m n lda a).n → ∀ e ∈ (denseCSC m n lda a).col j, e.1 < (denseCSC m n lda a).m := by
+    intro j hj e he
+    rw [dense_col m n lda a j hj] at he
+    simp only [List.mem_map, List.mem_range] at he
+    obtain ⟨i, hi, rfl⟩ := he
+    exact hi
+  obtain ⟨h1, h2, h3⟩ := sp_gemv_spec tr alpha (denseCSC m n lda a) x incx beta y incy hm hn hincy hrows hy
+  have hY : lenY tr (denseCSC m n lda a) = (if tr == Tr.N then m else n) := rfl
+  have hX : lenX tr (denseCSC m n lda a) = (if tr == Tr.N then n else m) := rfl
+  rw [hY] at h3
+  refine ⟨h1, ?_, h3⟩
+  intro i hi
+  have := h2 i hi
+  rw [hY, hX] at this
+  unfold gemv
+  rw [this]
+  congr 2
+  apply Finset.sum_congr rfl
+  intro j hj
+  rw [dense_opEntry tr m n lda a i j hi (by rw [hX]; simpa using hj)]
+
+/-- `beta = 0`: `y` is not read — the strided result does not depend on the old `y` -/
+theorem gemv_beta_zero (tr : Tr) (m n lda : Nat) (alpha : K) (a x y y' : Array K) (incx incy : Int)
+    (hm : m ≠ 0) (hn : n ≠ 0) (hincy : incy ≠ 0)
+    (hy : ∀ i, i < (if tr == Tr.N then m else n) → vpos (if tr == Tr.N then m else n) incy i < y.size)
+    (hy' : ∀ i, i < (if tr == Tr.N then m else n) → vpos (if tr == Tr.N then m else n) incy i < y'.size)
+    (i : Nat) (hi : i < (if tr == Tr.N then m else n)) :
+    (gemv tr m n alpha a lda x incx 0 y incy)[vpos (if tr == Tr.N then m else n) incy i]! =
+      (gemv tr m n alpha a lda x incx 0 y' incy)[vpos (if tr == Tr.N then m else n) incy i]! := by
+  rw [(gemv_spec tr m n lda alpha 0 a x y incx incy hm hn hincy hy).2.1 i hi,
+    (gemv_spec tr m n lda alpha 0 a x y' incx incy hm hn hincy hy').2.1 i hi]
+  ring
+
+/-- `m = 0` or `n = 0`: quick return -/
+theorem gemv_empty (tr : Tr) (m n lda : Nat) (alpha beta : K) (a x y : Array K) (incx incy : Int)
+    (h : m = 0 ∨ n = 0) : gemv tr m n alpha a lda x incx beta y incy = y :=
+  sp_gemv_empty tr alpha (denseCSC m n lda a) x incx beta y incy h
+
+
+end gemv
+
+/-- a 3 x 2 matrix with `lda = 4`, `incx = -1`, `incy = 2`: `y := 2*A*x + 3*y` -/
+example : gemv Tr.N 3 2 (2 : Rat) #[1, 2, 3, 99, 4, 5, 6, 99] 4 #[10, 1] (-1) 3 #[1, 0, 1, 0, 1] 2 =
+    #[85, 0, 107, 0, 129] := by decide +kernel
+example : gemv Tr.T 3 2 (1 : Rat) #[1, 2, 3, 99, 4, 5, 6, 99] 4 #[1, 1, 1] 1 0 #[7, 7] (-1) = #[15, 6] := by decide +kernel
+example := gemv_spec Tr.N 3 2 4 (2 : Rat) 3 #[1, 2, 3, 99, 4, 5, 6, 99] #[10, 1] #[1, 0, 1, 0, 1] (-1) 2
+  (by decide) (by decide) (by decide) (by decide)
+
+end Slu.Cblas
+
+/-! ## Connection to the 1-norm estimator's own BLAS-1 mirrors (Slu/Model/Lacon.lean, C12)
+
+`lacon2` was modelled "with the bundled dasum/idamax": `Lacon.asumD` (a plain left-to-right fold),
+`Lacon.asumS` (blocks of six in double) and `Lacon.imaxBy`.  They are EQUAL — at `Float`/`Float32`,
+no algebraic law involved — to this file's statement-order mirrors with unit increment, so the
+bit comparison of family `cblas` and the theorems above cover the kernels C12 runs on. -/
+namespace Slu.Cblas
+open Slu
+
+theorem f2cabs_eq_lacon_d (a : Float) : f2cabs a = Lacon.f2cAbs a := rfl
+theorem f2cabs_eq_lacon_s (a : Float32) : f2cabs a = Lacon.f2cAbs a := rfl
+
+/-- the `dasum_` mirror of the 1-norm estimator (Slu/Model/Lacon.lean, a plain left-to-right fold) IS
+this file's statement-order mirror with its clean-up loop and blocks of six, at `Float` -/
+theorem asumR_eq_lacon_asumD (x : Array Float) : asumR (x.size : Int) x 1 = Lacon.asumD x := by
+  unfold asumR Lacon.asumD
+  by_cases h : x.size = 0
+  · have : x = #[] := Array.eq_empty_of_size_eq_zero h
+    subst this; simp
+  · have hc : ¬ (((x.size : Nat) : Int) ≤ 0 ∨ (1 : Int) ≤ 0) := by omega
+    simp only [hc, if_false, ne_eq, not_true_eq_false, Int.toNat_natCast]
+    rw [unrolled_eq_loop 6]
+    · exact loop_getD_eq_foldl x 0 (fun acc a => acc + Lacon.f2cAbs a) 0
+    · intro t b; rfl
+
+/-- the same for `sasum_` (blocks of six accumulated in double, rounded once per block) -/
+theorem asumR_eq_lacon_asumS (x : Array Float32) : asumR (x.size : Int) x 1 = Lacon.asumS x := by
+  unfold asumR Lacon.asumS
+  by_cases h : x.size = 0
+  · have : x = #[] := Array.eq_empty_of_size_eq_zero h
+    subst this; rfl
+  · have hc : ¬ (((x.size : Nat) : Int) ≤ 0 ∨ (1 : Int) ≤ 0) := by omega
+    simp only [hc, if_false, ne_eq, not_true_eq_false, Int.toNat_natCast]
+    by_cases hq : x.size % 6 ≠ 0 ∧ x.size < 6
+    · have h6 : x.size / 6 = 0 := Nat.div_eq_of_lt hq.2
+      simp only [hq, not_false_eq_true, and_self, if_true]
+      unfold unrolled
+      rw [h6, loop_zero]
+      rfl
+    · have h6 : (x.size - x.size % 6) / 6 = x.size / 6 := by omega
+      simp only [hq, if_false, h6]
+      rfl
+
+/-- `idamax_`/`isamax_` with unit increment is the estimator's `imaxBy` (0-based there) -/
+theorem iamaxR_eq_lacon_imaxBy {R : Type} [Zero R] [Neg R] [LE R] [DecidableLE R] (x : Array R) (hx : 1 ≤ x.size) :
+    iamaxR (x.size : Int) x 1 = ((Lacon.imaxBy (fun a : R => f2cabs a) 0 x : Nat) : Int) + 1 := by
+  unfold iamaxR Lacon.imaxBy
+  have hc : ¬ (((x.size : Nat) : Int) < 1 ∨ (1 : Int) ≤ 0) := by omega
+  simp only [hc, if_false, Int.toNat_natCast, spos_one]
+  by_cases h1 : x.size = 1
+  · simp [h1]
+  · have h1' : ¬ ((x.size : Int) = 1) := by omega
+    simp only [h1', if_false]
+    let G : Nat × R → Nat → Nat × R := fun bm i =>
+      if f2cabs (x.getD (i + 1) 0) ≤ bm.2 then bm else (i + 1, f2cabs (x.getD (i + 1) 0))
+    have key : ∀ m, (loop m (fun (s : Int × R) k =>
+          if f2cabs (x.getD (k + 1) 0) ≤ s.2 then s else (((k + 2 : Nat) : Int), f2cabs (x.getD (k + 1) 0)))
+          ((1 : Int), f2cabs (x.getD 0 0))) =
+        (((((List.range m).foldl G (0, f2cabs (x.getD 0 0))).1 : Nat) : Int) + 1,
+         ((List.range m).foldl G (0, f2cabs (x.getD 0 0))).2) := by
+      intro m
+      induction m with
+      | zero => simp [loop_zero]
+      | succ m ih =>
+        rw [loop_succ, ih, List.range_succ, List.foldl_append]
+        simp only [List.foldl_cons, List.foldl_nil, G]
+        split
+        · rfl
+        · simp; omega
+    rw [key]
+
+
+end Slu.Cblas
+
+/-! ## The bundled reference BLAS — level 2: `[sdcz]trsv_` (partial) -/
+namespace Slu.Cblas
+open Finset Slu.Kernels
+section trsv
+variable {K : Type} [Field K] [Conj K] [Inhabited K]
+variable [BEq K]
+
+theorem trsv_upper_trans_eq_sweep (tr : Tr) (htr : tr ≠ Tr.N) (nounit : Bool) (n lda : Nat) (a x : Array K) (incx : Int) :
+    trsv true tr nounit n a lda x incx =
+      sweepUT (spos n incx) (fun i j => cj tr a[i + j * lda]!) (fun j => cj tr a[j + j * lda]!) nounit x n := by
+  have h : (tr == Tr.N) = false := by
+    cases tr
+    · exact absurd rfl htr
+    · rfl
+    · rfl
+  unfold trsv sweepUT
+  simp only [h, Bool.false_eq_true, if_false, if_true]
+
+/-- **trsv (partial: `uplo = U`, `trans = T` or `C`, both `diag`, every `n`, `lda`, nonzero `incx`).**
+The strided entries of the result solve the LOWER triangular system `op(A) r = x`
+(`op(A)(j,i) = [conj] A(i,j)`, diagonal replaced by one for `diag = U`), row by row; every other position
+of the array and its size are unchanged.
+Full goal (`trsv_spec`, not yet proved): the same for the three remaining branches —
+`uplo = L, trans = T/C` (the mirrored backward sweep, reference `bwdSub`), and `trans = N` with
+`uplo = U / L` (column sweeps with the `x_j = 0` skip, which is invisible in exact arithmetic). -/
+theorem trsv_spec_partial (tr : Tr) (htr : tr ≠ Tr.N) (nounit : Bool) (n lda : Nat) (a x : Array K) (incx : Int)
+    (hinc : incx ≠ 0) (hb : ∀ i, i < n → spos n incx i < x.size)
+    (hd : nounit = true → ∀ j, j < n → cj tr a[j + j * lda]! ≠ 0) :
+    (trsv true tr nounit n a lda x incx).size = x.size ∧
+    (∀ j, j < n →
+      (∑ i ∈ range j, cj tr a[i + j * lda]! * (trsv true tr nounit n a lda x incx)[spos n incx i]!) +
+        (if nounit then cj tr a[j + j * lda]! else 1) * (trsv true tr nounit n a lda x incx)[spos n incx j]! =
+      x[spos n incx j]!) ∧
+    (∀ p, (∀ i, i < n → spos n incx i ≠ p) → (trsv true tr nounit n a lda x incx)[p]! = x[p]!) := by
+  rw [trsv_upper_trans_eq_sweep tr htr]
+  obtain ⟨h1, h2, _, h4⟩ := sweepUT_spec n (spos n incx) (fun i j => cj tr a[i + j * lda]!)
+    (fun j => cj tr a[j + j * lda]!) nounit x (fun i j hi hj h => spos_inj n incx hinc i j hi hj h) hb n (le_refl _)
+  refine ⟨h1, ?_, h4⟩
+  intro j hj
+  have hdj : (if nounit then cj tr a[j + j * lda]! else 1) ≠ (0 : K) := by
+    cases hnu : nounit
+    · simp
+    · simpa using hd hnu j hj
+  have row := fwdSub_row (fun j i => cj tr a[i + j * lda]!) (fun j => if nounit then cj tr a[j + j * lda]! else 1)
+    (fun i => x[spos n incx i]!) n j hj hdj
+  rw [h2 j hj, Finset.sum_congr rfl (fun i hi => by rw [h2 i (by have := mem_range.mp hi; omega)])]
+  exact row
+
+end trsv
+
+/-- upper triangular `[[2,1],[0,4]]` (lda = 3), `A' r = x` with `incx = -1`: logical `x = (2, 9)` -/
+example : trsv true Tr.T true 2 (#[2, 0, 99, 1, 4, 99] : Array Rat) 3 #[9, 2] (-1) = #[2, 1] := by decide +kernel
+example := trsv_spec_partial Tr.T (by decide) true 2 3 (#[2, 0, 99, 1, 4, 99] : Array Rat) #[9, 2] (-1)
+  (by decide) (by decide) (by decide)
+
+end Slu.Cblas
+
+namespace Slu.Cblas
+open Finset Slu.Kernels
+section trsv
+variable {K : Type} [Field K] [Conj K] [Inhabited K]
+variable [BEq K]
+
+theorem trsv_lower_trans_eq_sweep (tr : Tr) (htr : tr ≠ Tr.N) (nounit : Bool) (n lda : Nat) (a x : Array K) (incx : Int) :
+    trsv false tr nounit n a lda x incx =
+      sweepLT n (spos n incx) (fun i j => cj tr a[i + j * lda]!) (fun j => cj tr a[j + j * lda]!) nounit x n := by
+  have h : (tr == Tr.N) = false := by
+    cases tr
+    · exact absurd rfl htr
+    · rfl
+    · rfl
+  unfold trsv sweepLT
+  simp only [h, Bool.false_eq_true, if_false]
+
+/-- **trsv (partial, second branch: `uplo = L`, `trans = T` or `C`).**  The strided entries of the result
+solve the UPPER triangular system `op(A) r = x`: for every row `j`,
+`Σ_{i = j+1}^{n-1} [conj]A(i,j) r_i + d_j r_j = x_j` (the sum is written in the order the code runs:
+`i = n-1-ii`, `ii < n-1-j`); every other position and the size are unchanged. -/
+theorem trsv_spec_partial_lower (tr : Tr) (htr : tr ≠ Tr.N) (nounit : Bool) (n lda : Nat) (a x : Array K) (incx : Int)
+    (hinc : incx ≠ 0) (hb : ∀ i, i < n → spos n incx i < x.size)
+    (hd : nounit = true → ∀ j, j < n → cj tr a[j + j * lda]! ≠ 0) :
+    (trsv false tr nounit n a lda x incx).size = x.size ∧
+    (∀ j, j < n →
+      (∑ ii ∈ range (n - 1 - j), cj tr a[(n - 1 - ii) + j * lda]! * (trsv false tr nounit n a lda x incx)[spos n incx (n - 1 - ii)]!) +
+        (if nounit then cj tr a[j + j * lda]! else 1) * (trsv false tr nounit n a lda x incx)[spos n incx j]! =
+      x[spos n incx j]!) ∧
+    (∀ p, (∀ i, i < n → spos n incx i ≠ p) → (trsv false tr nounit n a lda x incx)[p]! = x[p]!) := by
+  rw [trsv_lower_trans_eq_sweep tr htr]
+  obtain ⟨h1, h2, _, h4⟩ := sweepLT_spec n (spos n incx) (fun i j => cj tr a[i + j * lda]!)
+    (fun j => cj tr a[j + j * lda]!) nounit x (fun i j hi hj h => spos_inj n incx hinc i j hi hj h) hb hd n (le_refl _)
+  exact ⟨h1, fun j hj => h2 j (by omega) hj, h4⟩
+
+end trsv
+
+/-- lower triangular `[[2,0],[1,4]]` (lda = 2), `A' r = x`, `incx = 2` -/
+example : trsv false Tr.T true 2 (#[2, 1, 0, 4] : Array Rat) 2 #[5, 77, 8] 2 = #[3 / 2, 77, 2] := by decide +kernel
+example := trsv_spec_partial_lower Tr.C (by decide) true 2 2 (#[2, 1, 0, 4] : Array Rat) #[5, 77, 8] 2
+  (by decide) (by decide) (by decide)
+
+end Slu.Cblas
+
+namespace Slu.Cblas
+open Finset Slu.Kernels
+section trsvN
+variable {K : Type} [Field K] [Inhabited K] [BEq K] [LawfulBEq K]
+variable [Conj K]
+
+omit [LawfulBEq K] in
+theorem trsv_lower_notrans_eq_sweep (nounit : Bool) (n lda : Nat) (a x : Array K) (incx : Int) :
+    trsv false Tr.N nounit n a lda x incx =
+      loop n (colStepLN n (spos n incx) (fun i j => a[i + j * lda]!) nounit) x := by
+  unfold trsv
+  have h : (Tr.N == Tr.N) = true := rfl
+  simp only [h, if_true, Bool.false_eq_true, if_false]
+  rfl
+
+/-- **trsv (partial, third branch: `uplo = L`, `trans = N`)** — the column sweep with the `x_j = 0`
+skip: the strided entries of the result solve the lower triangular system `A r = x` row by row
+(diagonal replaced by one for `diag = U`); everything else is unchanged. -/
+theorem trsv_spec_partial_lower_notrans (nounit : Bool) (n lda : Nat) (a x : Array K) (incx : Int)
+    (hinc : incx ≠ 0) (hb : ∀ i, i < n → spos n incx i < x.size)
+    (hd : nounit = true → ∀ j, j < n → a[j + j * lda]! ≠ 0) :
+    (trsv false Tr.N nounit n a lda x incx).size = x.size ∧
+    (∀ i, i < n →
+      (∑ j ∈ range i, a[i + j * lda]! * (trsv false Tr.N nounit n a lda x incx)[spos n incx j]!) +
+        (if nounit then a[i + i * lda]! else 1) * (trsv false Tr.N nounit n a lda x incx)[spos n incx i]! =
+      x[spos n incx i]!) ∧
+    (∀ p, (∀ i, i < n → spos n incx i ≠ p) → (trsv false Tr.N nounit n a lda x incx)[p]! = x[p]!) := by
+  rw [trsv_lower_notrans_eq_sweep]
+  obtain ⟨h1, h2, _, h4⟩ := sweepLN_spec n (spos n incx) (fun i j => a[i + j * lda]!) nounit x
+    (fun i j hi hj h => spos_inj n incx hinc i j hi hj h) hb n (le_refl _)
+  refine ⟨h1, ?_, h4⟩
+  intro i hi
+  have hdi : (if nounit then a[i + i * lda]! else 1) ≠ (0 : K) := by
+    cases hnu : nounit
+    · simp
+    · simpa using hd hnu i hi
+  have row := fwdSub_row (fun i j => a[i + j * lda]!) (fun j => if nounit then a[j + j * lda]! else 1)
+    (fun i => x[spos n incx i]!) n i hi hdi
+  rw [h2 i hi, Finset.sum_congr rfl (fun j hj => by rw [h2 j (by have := mem_range.mp hj; omega)])]
+  exact row
+
+end trsvN
+
+/-- lower triangular `[[2,0],[1,4]]`, `A r = x` with `x = (4, 10)` stored backwards -/
+example : trsv false Tr.N true 2 (#[2, 1, 0, 4] : Array Rat) 2 #[10, 4] (-1) = #[2, 2] := by decide +kernel
+example := trsv_spec_partial_lower_notrans true 2 2 (#[2, 1, 0, 4] : Array Rat) #[10, 4] (-1)
+  (by decide) (by decide) (by decide)
+
+end Slu.Cblas
+
+namespace Slu.Cblas
+open Finset Slu.Kernels
+section trsvUN
+variable {K : Type} [Field K] [Inhabited K] [BEq K] [LawfulBEq K] [Conj K]
+
+omit [LawfulBEq K] in
+/-- the `uplo = U, trans = N` sweep (columns `n-1 .. 0`, inner `i = j-1 .. 0`) is the `uplo = L` sweep on
+the reversed indexing `i ↦ n-1-i` -/
+theorem trsv_upper_notrans_eq_sweep (nounit : Bool) (n lda : Nat) (a x : Array K) (incx : Int) :
+    trsv true Tr.N nounit n a lda x incx =
+      loop n (colStepLN n (fun i => spos n incx (n - 1 - i)) (fun i j => a[(n - 1 - i) + (n - 1 - j) * lda]!) nounit) x := by
+  unfold trsv
+  have h : (Tr.N == Tr.N) = true := rfl
+  simp only [h, if_true]
+  apply loop_congr
+  intro X jj hjj
+  unfold colStepLN
+  simp only []
+  split
+  · rfl
+  · apply loop_congr
+    intro Y ii hii
+    have e : n - 1 - jj - 1 - ii = n - 1 - (jj + 1 + ii) := by omega
+    simp only [e]
+
+theorem trsv_spec_partial_upper_notrans (nounit : Bool) (n lda : Nat) (a x : Array K) (incx : Int)
+    (hinc : incx ≠ 0) (hb : ∀ i, i < n → spos n incx i < x.size)
+    (hd : nounit = true → ∀ j, j < n → a[j + j * lda]! ≠ 0) :
+    (trsv true Tr.N nounit n a lda x incx).size = x.size ∧
+    (∀ i, i < n →
+      (∑ jj ∈ range (n - 1 - i), a[i + (n - 1 - jj) * lda]! * (trsv true Tr.N nounit n a lda x incx)[spos n incx (n - 1 - jj)]!) +
+        (if nounit then a[i + i * lda]! else 1) * (trsv true Tr.N nounit n a lda x incx)[spos n incx i]! =
+      x[spos n incx i]!) ∧
+    (∀ p, (∀ i, i < n → spos n incx i ≠ p) → (trsv true Tr.N nounit n a lda x incx)[p]! = x[p]!) := by
+  rw [trsv_upper_notrans_eq_sweep]
+  obtain ⟨h1, h2, _, h4⟩ := sweepLN_spec n (fun i => spos n incx (n - 1 - i)) (fun i j => a[(n - 1 - i) + (n - 1 - j) * lda]!) nounit x
+    (fun i j hi hj h => by have := spos_inj n incx hinc _ _ (by omega) (by omega) h; omega)
+    (fun i hi => hb _ (by omega)) n (le_refl _)
+  refine ⟨h1, ?_, ?_⟩
+  · intro i hi
+    have hi' : n - 1 - i < n := by omega
+    have hdi : (if nounit then a[(n - 1 - (n - 1 - i)) + (n - 1 - (n - 1 - i)) * lda]! else 1) ≠ (0 : K) := by
+      cases hnu : nounit
+      · simp
+      · have e : n - 1 - (n - 1 - i) = i := by omega
+        rw [e]; simpa using hd hnu i hi
+    have row := fwdSub_row (fun i j => a[(n - 1 - i) + (n - 1 - j) * lda]!)
+      (fun j => if nounit then a[(n - 1 - j) + (n - 1 - j) * lda]! else 1)
+      (fun i => x[spos n incx (n - 1 - i)]!) n (n - 1 - i) hi' hdi
+    have e : n - 1 - (n - 1 - i) = i := by omega
+    have g := h2 (n - 1 - i) hi'
+    simp only [e] at g row
+    rw [g, Finset.sum_congr rfl (fun jj hjj => by rw [h2 jj (by have := mem_range.mp hjj; omega)])]
+    exact row
+  · intro p hp
+    exact h4 p (fun i hi => hp _ (by omega))
+
+/-- **trsv, all twelve `uplo × trans × diag` combinations**: the size of the array and every position
+off the stride are unchanged; the strided entries solve `op(A) r = x` row by row — the row equations
+are `trsv_spec_partial` (U, T/C), `trsv_spec_partial_lower` (L, T/C),
+`trsv_spec_partial_lower_notrans` (L, N), `trsv_spec_partial_upper_notrans` (U, N), which together
+cover every branch of `[sdcz]trsv_`. -/
+theorem trsv_spec (upper : Bool) (tr : Tr) (nounit : Bool) (n lda : Nat) (a x : Array K) (incx : Int)
+    (hinc : incx ≠ 0) (hb : ∀ i, i < n → spos n incx i < x.size)
+    (hd : nounit = true → ∀ j, j < n → cj tr a[j + j * lda]! ≠ 0) :
+    (trsv upper tr nounit n a lda x incx).size = x.size ∧
+    (∀ p, (∀ i, i < n → spos n incx i ≠ p) → (trsv upper tr nounit n a lda x incx)[p]! = x[p]!) := by
+  by_cases htr : tr = Tr.N
+  · subst htr
+    have hd' : nounit = true → ∀ j, j < n → a[j + j * lda]! ≠ 0 := by
+      intro h j hj
+      have e : (Tr.N == Tr.C) = false := rfl
+      have := hd h j hj
+      simpa [cj, e] using this
+    cases upper
+    · exact ⟨(trsv_spec_partial_lower_notrans nounit n lda a x incx hinc hb hd').1,
+        (trsv_spec_partial_lower_notrans nounit n lda a x incx hinc hb hd').2.2⟩
+    · exact ⟨(trsv_spec_partial_upper_notrans nounit n lda a x incx hinc hb hd').1,
+        (trsv_spec_partial_upper_notrans nounit n lda a x incx hinc hb hd').2.2⟩
+  · cases upper
+    · exact ⟨(trsv_spec_partial_lower tr htr nounit n lda a x incx hinc hb hd).1,
+        (trsv_spec_partial_lower tr htr nounit n lda a x incx hinc hb hd).2.2⟩
+    · exact ⟨(trsv_spec_partial tr htr nounit n lda a x incx hinc hb hd).1,
+        (trsv_spec_partial tr htr nounit n lda a x incx hinc hb hd).2.2⟩
+
+end trsvUN
+
+/-- upper triangular `[[2,1],[0,4]]`, `A r = x`, `x = (4, 8)` -/
+example : trsv true Tr.N true 2 (#[2, 0, 1, 4] : Array Rat) 2 #[4, 8] 1 = #[1, 2] := by decide +kernel
+example := trsv_spec_partial_upper_notrans true 2 2 (#[2, 0, 1, 4] : Array Rat) #[4, 8] 1
+  (by decide) (by decide) (by decide)
+
+end Slu.Cblas
